@@ -47,12 +47,10 @@ Theorem trace_sound : forall c tr s,
 Proof. exact trace_sound_proof. Qed.
 Print Assumptions trace_sound.
 
-(* the precondition in source terms: at least one worker is created iff threads (default: the
-   cpu count) >= 1 and a sized iterable is non-empty; a functor that never raises needs no more *)
+(* the precondition in source terms: at least one worker is created unless a sized iterable
+   reports length 0 (threads <= 0 is raised to 1); a functor that never raises needs no more *)
 Theorem parallelism_pos_iff : forall c,
-  1 <= parallelism c <->
-  (1 <= match threads c with Some t => t | None => cpu c end)%Z /\
-  match len_hint c with Some n => 1 <= n | None => True end.
+  1 <= parallelism c <-> match len_hint c with Some n => 1 <= n | None => True end.
 Proof. exact parallelism_pos_iff_proof. Qed.
 Print Assumptions parallelism_pos_iff.
 
@@ -62,7 +60,16 @@ Theorem pool_adequate_simple : forall c,
 Proof. exact pool_adequate_simple_proof. Qed.
 Print Assumptions pool_adequate_simple.
 
-(* the statement without the precondition is false of the code, in two ways *)
+(* never-raising functor, truthful len(): the statement holds for every thread count *)
+Theorem exactly_once_never_raising : forall c s, reachable c s -> returned c s ->
+  (forall x, fout c x <> Die) ->
+  match len_hint c with Some n => n = length (items c) | None => True end ->
+  Permutation (processed s) (items c).
+Proof. exact exactly_once_never_raising_proof. Qed.
+Print Assumptions exactly_once_never_raising.
+
+(* without a worker nothing is processed (only a sized iterable reporting length 0 gets none);
+   the statement without the precondition is false of the code when every worker dies *)
 Theorem no_workers_nothing_processed : forall c s,
   parallelism c = 0 -> reachable c s -> processed s = [].
 Proof. exact no_workers_proof. Qed.
